@@ -27,7 +27,6 @@ pub fn triple_body(a: FieldValue, b: FieldValue, c: FieldValue) {
     let ref_ab = r::ref_eq(&a, &b);
     let nums = (r::num(&a), r::num(&b));
 
-    kani::cover!(true, "witness: end of harness reached");
     kani::cover!(eq_ab && eq_bc, "witness: a == b == c possible");
     kani::cover!(matches!(ab, Some(Ordering::Less)) && matches!(bc, Some(Ordering::Less)), "witness: a < b < c possible");
 
@@ -48,16 +47,6 @@ pub fn triple_body(a: FieldValue, b: FieldValue, c: FieldValue) {
     if let (Some(x), Some(y)) = nums {
         assert!(ab == Some(x.cmp(&y)), "integers are ordered by numeric value");
     }
-}
-
-macro_rules! triple {
-    ($name:ident, $unw:expr, $a:tt, $b:tt, $c:tt) => {
-        #[kani::proof]
-        #[kani::unwind($unw)]
-        pub fn $name() {
-            triple_body(mkv!($a), mkv!($b), mkv!($c));
-        }
-    };
 }
 
 include!("gen_c08.rs");
